@@ -218,7 +218,11 @@ class SimLoop(asyncio.BaseEventLoop):
             owner = None
         if owner is None:
             owner = OWNER.get()
-        if owner == "sim" and exc is not None and self.fatal is None:
+        msg = str(ctx.get("message") or "")
+        if owner == "sim" and exc is not None and self.fatal is None \
+                and "was never retrieved" not in msg:
+            # (an un-retrieved exception of a plain future is reported from __del__, in
+            # nobody's context; it is recorded below but is not a simulator failure)
             self.fatal = exc
         self.exc_contexts.append(
             {
